@@ -171,6 +171,44 @@ def noProcessWideConfig (cs : List ConfigCall) : Bool := cs.all (·.inInit)
 def hasNodeWrite (ws : List NodeWrite) (typ method field : String) (ph : NodePhase) : Bool :=
   ws.any (fun w => w.typ == typ && w.method == method && w.field == field && w.phase == ph)
 
+/-! ### writes through parameters (round 5) -/
+
+inductive ParamWriteHow where
+  | elem       -- param[i] = …, *param = …
+  | sort       -- sort.Strings(param) & co, slices.Sort…(param)
+  | copyDst    -- copy(param, …)
+  | delete     -- delete(param, k), clear(param)
+  | appendIn   -- append(param[:k], …)
+  | via        -- handed to a function of the same package that writes through the corresponding parameter
+  deriving DecidableEq, Repr
+
+inductive ApiKind where
+  | read    -- Find… Iterat… Query… Read… Eval… Is… Get… Load… List… Open… Has… Count… Contains… Compare… Parse… (by name)
+  | write   -- everything else
+  deriving DecidableEq, Repr
+
+/-- a function that writes through a slice / map / pointer parameter (memory of the caller) -/
+structure ParamWrite where
+  pkg : String
+  func : String
+  param : String
+  how : ParamWriteHow
+  api : ApiKind
+  deriving Repr
+
+/-- reviewed exceptions among READ apis (pkg, func, param, reason): none on the current tree.  The two rows of the tree are
+    WRITE apis: `linkCollectionImpl.SetLinks` sorts the caller's `keys` (a mutating call inside a write transaction; the
+    caller hands over the new link list) and `PersistContext.SetLinkedIds` passes its `value` on to it. -/
+def reviewedParamWrites : List (String × String × String × String) := []
+
+def ParamWrite.ok (w : ParamWrite) : Bool :=
+  w.api != .read || reviewedParamWrites.any (fun e => e.1 == w.pkg && e.2.1 == w.func && e.2.2.1 == w.param)
+
+def readApisDoNotWriteArguments (ws : List ParamWrite) : Bool := ws.all ParamWrite.ok
+
+def hasParamWrite (ws : List ParamWrite) (pkg func param : String) (h : ParamWriteHow) (a : ApiKind) : Bool :=
+  ws.any (fun w => w.pkg == pkg && w.func == func && w.param == param && w.how == h && w.api == a)
+
 def hasClosure (cs : List Closure) (pkg func : String) : Bool :=
   cs.any (fun c => c.pkg == pkg && c.func == func)
 
